@@ -122,6 +122,20 @@ def run(shard, ctx):
                          {"gen": c.custom, "cmd": c.name, "table": setname, "args": a, "mode": mode}, exc=e)
                 continue
             nt = judge(ctx, c, setname, "ctor", a, exp, cmd)
+            # a copy job is looped: the caller's very dictionaries are handed to the library again
+            if setname == c.sets[0]:
+                shared = DO.fresh(a)
+                try:
+                    harness.construct(c, setname, shared)
+                    again = harness.construct(c, setname, shared)
+                    third = harness.construct(c, setname, shared)
+                    judge(ctx, c, setname, "reused_dictionaries", a, exp, again)
+                    judge(ctx, c, setname, "reused_dictionaries", a, exp, third)
+                    ctx.count("reused_dictionary_builds")
+                except Exception as e:  # noqa: BLE001
+                    ctx.fail("C05:%s.reused_dictionaries_raise.%s" % (c.custom, type(e).__name__),
+                             "%s cannot be constructed a second time from the same (valid) dictionary objects: %s: %s" % (c.name, type(e).__name__, e),
+                             {"gen": c.custom, "cmd": c.name, "args": a}, exc=e)
             ctx.case(("ctor",) + rep, nt, sample={"cmd": c.name, "table": setname, "args": a, "dataout": bytes(cmd.dataout)} if ctx.want_sample() else None)
             ctx.count("lists_parsed")
             dev = harness.Recorder(getattr(E, setname))
